@@ -334,7 +334,73 @@ def parts(tier):
     return out
 
 
-CHECKS = [dict(name='cluster', fn=h, parts=parts, budget={'quick': 180, 'thorough': 1500}, per_path_s=30)]
+# ---- the listening loop of a host is started once, whatever the arrival order of its first connections --------------------
+def h_start(t, part):
+    """k engine.io connections arrive on one (threaded) host at the same time; starting the listening task is a
+    cooperative switch point (backend I/O, greenlet/thread spawn), as are the transport calls. Every listening loop the
+    host started gets its own subscription (its own cursor: kombu fan-out queue / redis pubsub object per listener)."""
+    from vf import baton
+    k = part['k']
+    with notrace():
+        sched = baton.Sched(lambda n: t.choice(n), max_decisions=40)
+        chan = []
+
+        class M(socketio.pubsub_manager.PubSubManager):
+            def __init__(self):
+                super().__init__(logger=stubs.NULL_LOGGER)
+
+            def _publish(self, data):
+                chan.append(pickle.dumps(data))
+
+            def _listen(self):
+                cur = 0
+                while cur < len(chan):
+                    item = chan[cur]
+                    cur += 1
+                    yield item
+        m = M()
+        w = worlds.SWorld(False, client_manager=m, async_handlers=False)
+        w.s.on('connect', lambda sid, environ: None)
+        loops = []
+
+        def sbt(target, *a, **kw):
+            sched.point('start_background_task')
+            if target == m._thread:
+                loops.append(target)
+            sched.point('start_background_task-returned')
+            return stubs._DoneTask()
+        w.eio.start_background_task = sbt
+        for i in range(k):
+            sched.spawn((lambda i: lambda: w.s._handle_eio_connect('H-e%d' % i, {}))(i), 'conn%d' % i)
+    sched.run()
+    with notrace():
+        t.reached('start')
+        if sched.stuck or sched.over_budget:
+            return Fail('cluster:start:stuck', repr(sched.trace[-6:]))
+        excs = [x['exc'] for x in sched.ws if x['exc'] is not None]
+        if excs:
+            return Fail('cluster:start:exception:%s' % type(excs[0]).__name__, repr(excs))
+        w.open('c0')
+        sid = w.connect('c0', '/')
+        w.take('c0')
+        ext = make_manager(False, chan, write_only=True)
+        ext.emit('ev', 'x', namespace='/', to=sid if part['to'] == 'sid' else None)
+        for lp in loops:
+            lp()
+        got = [p for p in w.take('c0') if not isinstance(p, tuple) and p.packet_type == packet.EVENT]
+        if len(got) != 1:
+            return Fail('cluster:start:delivered-%s' % ('twice' if len(got) > 1 else 'never'),
+                        '%d connections arrived together (schedule %r): the host started %d listening loops; one emit of an '
+                        'external process was delivered %d times' % (k, sched.trace, len(loops), len(got)))
+    return None
+
+
+def start_parts(tier):
+    return [{'k': k, 'to': to} for k in ((2, 3) if tier == 'quick' else (2, 3, 4)) for to in ('sid', 'all')]
+
+
+CHECKS = [dict(name='cluster', fn=h, parts=parts, budget={'quick': 180, 'thorough': 1500}, per_path_s=30),
+          dict(name='lazy-start', fn=h_start, parts=start_parts, budget={'quick': 60, 'thorough': 200}, per_path_s=30)]
 
 META = dict(
     explanation='Two (thorough: three) real Servers with real PubSubManager / AsyncPubSubManager subclasses share one FIFO '
@@ -342,7 +408,10 @@ META = dict(
                 'The same operations are applied to a single real Server with the in-memory manager holding all clients, '
                 'and per-client deliveries (session ids renamed to client indices) and callback invocations are compared. '
                 'Placement of clients, operations, the issuing host (or a write-only external manager), targets, skip_sid '
-                'and - in delayed mode - who consumes when are tape choices; everything is concrete once chosen.',
+                'and - in delayed mode - who consumes when are tape choices; everything is concrete once chosen. '
+                'lazy-start: k first connections of a threaded host arrive together on real threads (baton), switching at '
+                'transport calls and where the listening task is started; every loop started gets its own subscription and '
+                'one external emit must reach the client once.',
     bounds={'quick': '3 clients (two of them in "room") placed on 2 hosts in all ways up to host symmetry; 2 operations: the '
                      'first from the full alphabet {emit via either host or the write-only process to None / room / a '
                      'session id / a list, with and without skip_sid; emit with callback to one client; enter_room, '
@@ -351,7 +420,9 @@ META = dict(
                      'server; delayed consumption (threaded) = at most once',
             'thorough': 'both operations from the full alphabet; 3 hosts; delayed mode with 3 operations'},
     outside=['real brokers (Redis, Kombu, ZeroMQ, Kafka, aio_pika)', 'delayed mode: eligibility of recipients under racing '
-             'membership changes is checked only as at-most-once'],
+             'membership changes is checked only as at-most-once', 'lazy-start: pre-emption between the test and the set of '
+             'Server.manager_initialized (free-threaded pre-emption at bytecode granularity); the asyncio server has no await '
+             'between them'],
     stubs=['broker -> one in-process list of pickled messages, per-host cursors', 'engine.io server -> FakeEio/FakeAEio '
            'with host-unique ids', 'JSON text -> TokJson (shared)', 'asyncio -> vf.miniloop (FIFO)'],
     assumptions=['engine.io session ids are unique across hosts'],
